@@ -1048,6 +1048,7 @@ def registry_history(fns, history):
     w.reg, w.reg_rands, w.reg_created, w.reg_problems, w.reg_queries = [], [], 0, [], 0
     w.reg_solver = z3.Solver()
     w.reg_assumed = set()
+    w.locks, w.gil_depth, w.lock_log, w.results = {}, {}, [], {}
     names = dict(new=w.find(r"static_iter::<impl.*>::new$"), enter=w.find(r"static_iter::<impl.*>::__enter__$"),
                  next=w.find(r"static_iter::<impl.*>::next$"), exit=w.find(r"static_iter::<impl.*>::__exit__$"))
     handles, owner = {}, {}
@@ -1063,19 +1064,19 @@ def registry_history(fns, history):
         try:
             if op == "new":
                 before = w.reg_created
-                handles[h] = drive(RegInterp(w, names["new"], {"_1": ["file"], "_2": False, "_3": 1, "_4": "compression"}).run())
+                handles[h] = drive(LockInterp(w, names["new"], {"_1": ["file"], "_2": False, "_3": 1, "_4": "compression"}).run())
                 if w.reg_created != before + 1:
                     w.reg_problems.append(dict(kind="new-creates-no-iterator", what=f"step {step}: new() created {w.reg_created - before} iterators"))
                 owner[h] = ("iterator", w.reg_created)
             elif op == "enter":
-                handles[h] = drive(RegInterp(w, names["enter"], {"_1": handles[h]}).run())
+                handles[h] = drive(LockInterp(w, names["enter"], {"_1": handles[h]}).run())
             elif op == "next":
-                r = drive(RegInterp(w, names["next"], {"_1": handles[h]}).run())
+                r = drive(LockInterp(w, names["next"], {"_1": handles[h]}).run())
                 if not (isinstance(r, tuple) and r[0] == "next-of" and r[1] == owner[h]):
                     w.reg_problems.append(dict(kind="next-reaches-another-iterator", step=step,
                                                what=f"step {step}: next() of handle {h} (owner of {owner[h]}) is served by {r}"))
             elif op == "exit":
-                drive(RegInterp(w, names["exit"], {"_1": handles[h], "_2": "None", "_3": "None", "_4": "None"}).run())
+                drive(LockInterp(w, names["exit"], {"_1": handles[h], "_2": "None", "_3": "None", "_4": "None"}).run())
                 if any(itr == owner[h] for _k, itr in w.reg):
                     w.reg_problems.append(dict(kind="exit-leaves-iterator", what=f"step {step}: exit of handle {h} left its iterator registered"))
                 live_owners = {owner[x] for x in handles if ("exit", x) not in history[:step + 1] and ("new", x) in history[:step + 1]}
@@ -1106,3 +1107,177 @@ def registry_histories(handles):
                 for rest in rec(np_):
                     yield [s[pos[i]]] + rest
     return rec([0] * handles)
+
+
+# ------------------------------------------------------------------------------------------------ locks of the pyo3 layer
+class Sync:
+    """Yielded by a thread at a lock operation: the scheduler may switch threads here."""
+
+    def __init__(self, what):
+        self.what = what
+
+
+class LockInterp(RegInterp):
+    """RegInterp + the two locks of the Python-facing layer: the registry mutex M (Mutex::lock .. drop of the guard) and the
+    interpreter lock GIL (held by the calling Python thread on entry; Python::with_gil = re-entrant acquire;
+    Python::allow_threads = release around the closure, re-acquire afterwards).  Lock operations block and are the only
+    points at which the scheduler switches threads."""
+
+    def _acquire(self, lock):
+        w = self.w
+        yield Sync(f"{self.tname} wants {lock}")
+        while w.locks.get(lock) not in (None, self.tname):
+            yield Block(f"{self.tname} waits for {lock} held by {w.locks.get(lock)}", lambda: w.locks.get(lock) in (None, self.tname))
+        w.locks[lock] = self.tname
+        w.lock_log.append((self.tname, "acquire", lock))
+
+    def _release(self, lock):
+        w = self.w
+        if w.locks.get(lock) == self.tname:
+            w.locks[lock] = None
+            w.lock_log.append((self.tname, "release", lock))
+        yield Sync(f"{self.tname} released {lock}")
+
+    def drop_value(self, v, seen=None):
+        if isinstance(v, tuple) and len(v) == 2 and v[0] == "guard":
+            if self.w.locks.get("M") == self.tname:
+                self.w.locks["M"] = None
+                self.w.lock_log.append((self.tname, "release", "M"))
+            return
+        return RegInterp.drop_value(self, v, seen)
+
+    def _closure_fn(self):
+        name = self.fname + "::{closure#0}"
+        if name not in self.w.fns:
+            raise Inconclusive(f"MIR of the closure {name} not found")
+        return name
+
+    def call(self, callee, args):
+        raw = re.sub(r"::+", "::", strip_generics(callee.strip())).rstrip(":")
+        w = self.w
+        if re.search(r"Mutex::lock$", raw):
+            yield from self._acquire("M")
+            a = [self.operand(x) for x in split_top(args)]
+            return Enum("Ok", [("guard", a[0])])
+        if raw.endswith("Python::with_gil"):
+            a = [self.operand(x) for x in split_top(args)]
+            had = w.gil_depth.get(self.tname, 0)
+            if had == 0:
+                yield from self._acquire("GIL")
+            w.gil_depth[self.tname] = had + 1
+            sub = LockInterp(w, self._closure_fn(), {"_1": a[0], "_2": "py"}, self.tname)
+            r = yield from sub.run()
+            w.gil_depth[self.tname] = had
+            if had == 0:
+                yield from self._release("GIL")
+            return r
+        if raw.endswith("Python::allow_threads"):
+            a = [self.operand(x) for x in split_top(args)]
+            had = w.gil_depth.get(self.tname, 0)
+            w.gil_depth[self.tname] = 0
+            if had:
+                yield from self._release("GIL")
+            sub = LockInterp(w, self._closure_fn(), {"_1": a[-1]}, self.tname)
+            r = yield from sub.run()
+            if had:
+                yield from self._acquire("GIL")
+            w.gil_depth[self.tname] = had
+            return r
+        r = yield from RegInterp.call(self, callee, args)
+        return r
+
+
+def _python_call(w, tname, fname, env):
+    """A Python thread calls a method of the extension: it holds the GIL for the duration (unless the method releases it)."""
+    it = LockInterp(w, fname, env, tname)
+    yield from it._acquire("GIL")
+    w.gil_depth[tname] = 1
+    r = yield from it.run()
+    w.gil_depth[tname] = 0
+    yield from it._release("GIL")
+    w.results[tname] = r
+    return r
+
+
+def lock_schedules(fns, ops=("next", "next"), max_runs=20000):
+    """Two Python threads, each with its own entered RustIter, run ops[0] and ops[1] concurrently.  Every interleaving of
+    their lock operations is executed on the MIR (depth-first over the scheduler's choices).  Returns
+    (problems, stats): a problem is a reachable state in which every unfinished thread is blocked (deadlock), a panic, or a
+    call served by the other thread's iterator."""
+    names = dict(new=r"static_iter::<impl.*>::new$", enter=r"static_iter::<impl.*>::__enter__$",
+                 next=r"static_iter::<impl.*>::next$", exit=r"static_iter::<impl.*>::__exit__$")
+    problems, runs, stack = [], 0, [[]]
+    seen_kinds = set()
+    while stack and runs < max_runs:
+        prefix = stack.pop()
+        runs += 1
+        w = World(fns, [])
+        w.reg, w.reg_rands, w.reg_created, w.reg_problems, w.reg_queries = [], [], 0, [], 0
+        w.reg_solver = z3.Solver()
+        w.reg_assumed = set()
+        w.locks, w.gil_depth, w.lock_log, w.results = {}, {}, [], {}
+        fn = {k: w.find(v) for k, v in names.items()}
+
+        def drive(gen):
+            try:
+                while True:
+                    next(gen)
+            except StopIteration as si:
+                return si.value
+        handles, owner = {}, {}
+        for h in ("A", "B"):  # set-up, one after the other
+            handles[h] = drive(_python_call(w, h, fn["new"], {"_1": ["file"], "_2": False, "_3": 1, "_4": "compression"}))
+            owner[h] = ("iterator", w.reg_created)
+            handles[h] = drive(_python_call(w, h, fn["enter"], {"_1": handles[h]}))
+        gens = {}
+        for h, op in zip(("A", "B"), ops):
+            env = {"_1": handles[h]} if op != "exit" else {"_1": handles[h], "_2": "None", "_3": "None", "_4": "None"}
+            gens[h] = _python_call(w, h, fn[op], env)
+        done, blocked, choices = set(), {}, []
+        step = 0
+        try:
+            while len(done) < 2:
+                runnable = [h for h in ("A", "B") if h not in done and (h not in blocked or blocked[h].ready())]
+                if not runnable:
+                    stuck = {h: blocked[h].why for h in blocked if h not in done}
+                    if "deadlock" not in seen_kinds:
+                        seen_kinds.add("deadlock")
+                        problems.append(dict(kind="lock-order-deadlock", ops=list(ops), schedule=list(w.lock_log),
+                                             what=f"two Python threads calling {ops[0]}() and {ops[1]}() on their own iterators: after "
+                                                  f"{[' '.join(x) for x in w.lock_log[-6:]]} every thread is blocked: {stuck}"))
+                    break
+                if len(runnable) > 1:
+                    k = prefix[step] if step < len(prefix) else 0
+                    if step >= len(prefix):
+                        stack.append(choices + [1])
+                    choices.append(k)
+                    step += 1
+                    h = runnable[k]
+                else:
+                    h = runnable[0]
+                blocked.pop(h, None)
+                # advance h to its next lock operation
+                while True:
+                    try:
+                        y = next(gens[h])
+                    except StopIteration:
+                        done.add(h)
+                        break
+                    if isinstance(y, Block):
+                        blocked[h] = y
+                        break
+                    if isinstance(y, Sync):
+                        break
+        except Panic as p:
+            if "panic" not in seen_kinds:
+                seen_kinds.add("panic")
+                problems.append(dict(kind="concurrent-call-panics", ops=list(ops), schedule=list(w.lock_log), what=f"concurrent {ops}: panic: {p.msg}"))
+        for h, op in zip(("A", "B"), ops):
+            r = w.results.get(h)
+            if op == "next" and h in done and not (isinstance(r, tuple) and r[0] == "next-of" and r[1] == owner[h]):
+                if "foreign" not in seen_kinds:
+                    seen_kinds.add("foreign")
+                    problems.append(dict(kind="concurrent-next-reaches-another-iterator", ops=list(ops), schedule=list(w.lock_log),
+                                         what=f"concurrent {ops}: next() of thread {h} was served by {r}, its own iterator is {owner[h]}"))
+        problems += [dict(p_, ops=list(ops)) for p_ in w.reg_problems if p_["kind"] not in seen_kinds and not seen_kinds.add(p_["kind"])]
+    return problems, dict(runs=runs)
